@@ -475,6 +475,8 @@ class BaseEMSurvey(ObjectBase, ABC):  # pylint: disable=too-many-public-methods
             )
         self._receivers = receivers
         self.edit_em_metadata({"Receivers": receivers.uid})
+        if self.type == "Transmitters":
+            receivers._transmitters = self
 
     @property
     def survey_type(self) -> str | None:
@@ -516,6 +518,7 @@ class BaseEMSurvey(ObjectBase, ABC):  # pylint: disable=too-many-public-methods
             )
         self._transmitters = transmitters
         self.edit_em_metadata({"Transmitters": transmitters.uid})
+        transmitters._receivers = self
 
     @property
     @abstractmethod
